@@ -184,6 +184,86 @@ def deriv_cases(ctx, rebound, table, nper):
     return cases
 
 
+# ------------------------------------------------------------------ rescale_var correspondence
+BIG = 1e100
+
+
+def rescale_cases(ctx, rebound, ncases):
+    """reb_simulation_rescale_var called directly on real simulations with 1-3 variation sets (first order full,
+    first-order test particle, second order), every integrator branch, (un)synchronised WHFast/EOS, safe_mode 0/1,
+    lrescale < 0 / = 0 / > 0, coordinates below / above 1e100, NaN and inf coordinates."""
+    rng = ctx.rng
+    clib = rebound.clibrebound
+    cases = []
+    for k in range(ncases):
+        sim = rebound.Simulation()
+        n = rng.choice([1, 2, 3])
+        for i in range(n):
+            sim.add(m=1.0 if i == 0 else 1e-3, x=float(i), y=0.1 * i, vy=1.0 if i else 0.0)
+        integ = rng.choice(["whfast", "whfast", "whfast", "eos", "eos", "ias15", "leapfrog", "bs", "mercurius"])
+        sim.integrator = integ
+        whs, eoss, sm = rng.random() < 0.7, rng.random() < 0.7, rng.random() < 0.5
+        sim.ri_whfast.is_synchronized = 1 if whs else 0
+        sim.ri_eos.is_synchronized = 1 if eoss else 0
+        sim.ri_whfast.safe_mode = 1 if sm else 0
+        rc0 = rng.random() < 0.2
+        sim.ri_whfast.recalculate_coordinates_this_timestep = 1 if rc0 else 0
+        w0 = rng.choice([0, 0, 0, 1, 2, 3])
+        sim._var_rescale_warning = w0
+        cfgs = []
+        nv = rng.choice([1, 2, 3])
+        firsts = []
+        for v in range(nv):
+            kind = rng.choice(["full", "full", "tp", "second"]) if firsts else rng.choice(["full", "full", "tp"])
+            if kind == "full":
+                var = sim.add_variation(); order = 1; firsts.append(var)
+            elif kind == "tp":
+                var = sim.add_variation(testparticle=rng.randrange(n)); order = 1
+            else:
+                var = sim.add_variation(order=2, first_order=firsts[0], first_order_2=rng.choice(firsts)); order = 2
+            cfgs.append((var, order))
+        tab, args, live = {}, [], []
+        for var, order in cfgs:
+            mode = rng.random()
+            mag = 10 ** rng.uniform(-3, 3) if mode < 0.4 else (10 ** rng.uniform(100.01, 250) if mode < 0.9 else 10 ** rng.uniform(99, 100))
+            ps = var.particles
+            flat = []
+            for p in ps:
+                for cn in ("x", "y", "z", "vx", "vy", "vz"):
+                    u = rng.random()
+                    val = rng.gauss(0, 1) * mag if u < 0.9 else (0.0 if u < 0.95 else rng.choice([float("nan"), float("inf"), -mag * 3]))
+                    setattr(p, cn, val)
+                    flat.append(val)
+            lres = rng.choice([0.0, 0.0, -1.0, rng.uniform(0, 500), -0.0])
+            var.lrescale = lres
+            scale = 0.0
+            for val in flat:
+                if abs(val) > scale:
+                    scale = abs(val)
+            if scale > BIG and scale != float("inf"):
+                tab[scale] = math.log(scale)
+            elif scale == float("inf"):
+                tab[scale] = float("inf")
+            args.append("(%d%%nat, %s, %s)" % (order, vlib.fhex(lres), vlib.flist(flat)))
+            live.append((var, len(ps)))
+        sim._var_rescale_warning = w0
+        clib.reb_simulation_rescale_var(ctypes.byref(sim))
+        exp = [1.0 if sim._var_rescale_warning & 1 else 0.0, 1.0 if sim._var_rescale_warning & 2 else 0.0,
+               float(sim.ri_whfast.recalculate_coordinates_this_timestep)]
+        for var, npart in live:
+            exp.append(var.lrescale)
+            for p in var.particles:
+                exp += [p.x, p.y, p.z, p.vx, p.vy, p.vz]
+        b = lambda t: "true" if t else "false"
+        icode = {"whfast": 1, "eos": 2}.get(integ, 0)
+        term = "(runRescale %s [%s] %d %s %s %s %s %s %s [%s])" % (
+            vlib.fhex(BIG), "; ".join("(%s, %s)" % (vlib.fhex(a), vlib.fhex(bv)) for a, bv in tab.items()), icode,
+            b(whs), b(eoss), b(sm), b(w0 & 1), b(w0 & 2), b(rc0), "; ".join(args))
+        cases.append(("rescale", term, exp, {"integrator": integ, "wh_sync": whs, "eos_sync": eoss, "safe_mode": sm, "nvar": nv}))
+        ctx.case(key=("rescale", integ, whs, eoss, sm, nv))
+    return cases
+
+
 def run_corr(ctx, label, cases, header):
     jobs = []
     for c0, ch in chunks(cases, 60):
@@ -203,7 +283,7 @@ def run_corr(ctx, label, cases, header):
 
 
 HEADER = ("From Coq Require Import List ZArith PrimFloat.\nFrom RV Require Import Common.Num Common.FloatNum C02.Model C02.Run "
-          "C16.GravityVar Gen.Derivs C16.Run.\nImport ListNotations.\nOpen Scope float_scope.\n")
+          "C16.GravityVar Gen.Derivs C16.Rescale C16.Run.\nImport ListNotations.\nOpen Scope float_scope.\n")
 
 
 def run(ctx):
@@ -227,7 +307,13 @@ def run(ctx):
     ctx.obligation("correspondence:C16 %d translated constructors (binary64, libm sin/cos and the library's element conversion as "
                    "inputs) == exported C functions, bit-for-bit on %d cases" % (len(table), len(dc)), ok2 and not bad2,
                    "mismatching functions: %s" % badfns[:12])
-    ctx.traces = (len(gc) if ok1 else 0) + (len(dc) if ok2 else 0)
+    # ---- correspondence 3: reb_simulation_rescale_var, branch for branch
+    rc = rescale_cases(ctx, rebound, ctx.scale(180, 2400))
+    ok3, bad3 = run_corr(ctx, "rescale", rc, HEADER)
+    ctx.obligation("correspondence:C16 rescale_all (binary64, libm log supplied) == reb_simulation_rescale_var on real simulations "
+                   "with 1-3 variation sets, bit-for-bit on %d cases (lrescale, all coordinates, warning bits 1|2, WHFast recalculate flag)"
+                   % len(rc), ok3 and not bad3, "mismatching cases: %s" % [rc[b][3] for b in bad3[:8]])
+    ctx.traces = (len(gc) if ok1 else 0) + (len(dc) if ok2 else 0) + (len(rc) if ok3 else 0)
 
     # ---- searcher
     c16_search.search(ctx, rebound, libdir)
